@@ -211,7 +211,8 @@ def specs(draw, max_formulas=14, with_arrays=True, with_names=True,
         ac = draw(st.integers(0, 2))
         t, full, shape = rect_text(SHEET, ar, 0)
         form = draw(st.sampled_from(['={T}*2', '={T}+1', '=ABS({T})',
-                                     '={T}&"k"', '={T}>1']))
+                                     '={T}&"k"', '={T}>1', '={T}',
+                                     '=IF({T}>0,{T},"")']))
         ref = f'{COLS[ac]}{ar}:{COLS[ac + aw - 1]}{ar + ah - 1}'
         arrays.append(dict(sheet=SHEET, ref=ref, formula=form.format(T=t)))
         ranges.append(f'{SHEET}!{ref}')
